@@ -8,6 +8,8 @@ import Octo.Model.SsUdp
 import Octo.Model.Config
 import Octo.Model.Handshake
 import Octo.Spec.Wire
+import Octo.Model.System
+import Octo.Model.Interleave
 import Octo.Crypto.Real
 import Std.Data.HashMap
 /-!
@@ -51,6 +53,16 @@ structure SsuObj where
   cc : SsUdp.ClientCodec := { session := {} }
   known : Bool := false        -- the client's random session id has been learned from its first packet
 
+/-- a running client + server pair: configuration, what has hit it so far -/
+structure WorldObj where
+  protocol : String
+  udp : Bool
+  link : Bool
+  serverUp : Bool := true
+  listeners : Listener.State := {}
+  openFlows : Nat := 0          -- flows that have not ended (every scripted flow runs to its end)
+  udpSinceBase : Bool := false
+
 inductive Obj where
   | ssu (o : SsuObj)
   | pw (f : PW.Filter)
@@ -59,6 +71,7 @@ inductive Obj where
   | vmc (s : VmcStream)
   | vms (s : VmsStream)
   | tj (s : TjStream)
+  | world (w : WorldObj)
 
 structure St where
   objs : Std.HashMap String Obj := {}
@@ -231,6 +244,44 @@ def showRes {α : Type} (f : α → String) : Res α → String
   | .more => "more"
   | .err => "err"
   | .panic => "panic"
+
+
+def e2eSizes (s : String) : List Bytes := (s.splitOn ",").filterMap fun x => x.toNat?.map fun n => List.replicate n 0
+
+def e2eScenario (rest : List String) : Option System.Scenario :=
+  match kv rest "up", kv rest "down" with
+  | some up, some down =>
+    let target := match kv rest "target" with
+      | some "refused" => System.TargetKind.refused
+      | some "unresolvable" => .unresolvable
+      | _ => .up
+    some { up := e2eSizes up, down := [ (e2eSizes down).flatten ], targetClosesFirst := kv rest "close" == some "target",
+           preamble := if kv rest "kind" == some "http" then [[80, 79, 83, 84]] else [],
+           target := target, cutAfter := (kv rest "cut").bind String.toNat?,
+           resetApp := kv rest "reset" == some "app", resetTarget := kv rest "reset" == some "target" }
+  | _, _ => none
+
+def e2eUdp (w : WorldObj) : String :=
+  if w.udp && w.listeners.serves && w.serverUp then "up=ok down=ok" else "up=diff:0 down=diff"
+
+def e2eFault (kind : String) : Option Listener.Fault :=
+  match kind with
+  | "server-junk" => some .tcpGarbage
+  | "server-junk-reset" => some .tcpReset
+  | "server-stall" => some .tcpStall
+  | "server-half" => some .tcpStall
+  | "server-udp-junk" => some .udpGarbage
+  | "server-udp-replay" => some .udpReplay
+  | "server-udp-unresolvable" => some .udpTargetUnresolvable
+  | "ws-fail" => some .wsFail
+  | "tls-fail" => some .tlsFail
+  | "tls-stall" => some .tlsStall
+  | "accept-emfile" => some .acceptError
+  | "local-junk" => some .localGarbage
+  | "local-stall" => some .localStall
+  | "local-udp-junk" => some .localUdpGarbage
+  | "local-udp-unresolvable" => some .udpTargetUnresolvable
+  | _ => none
 
 def step (st : St) (toks : List String) : St × String :=
   match toks with
@@ -435,6 +486,79 @@ def step (st : St) (toks : List String) : St × String :=
         | some (.http h port) => s!"ok http {hexOrDash h} {port}"
         | some (.https h port) => s!"ok https {hexOrDash h} {port}"
         | none => "err")
+    | _, _ => (st, "bad-op")
+  | "e2e.start" :: name :: rest =>
+    match kv rest "protocol", kv rest "cipher", kv rest "mode" with
+    | some proto, some cipher, some mode =>
+      let okCfg := (Config.cipherOf cipher).isSome && (Consts.protocolNames.any (·.1 == proto)) && (Consts.modeNames.any (·.1 == mode))
+      if okCfg then
+        let udp := match (Consts.modeNames.find? (·.1 == mode)) with
+          | some (_, v) => Consts.modeUdp.contains v
+          | none => false
+        ({ st with objs := st.objs.insert name (.world { protocol := proto, udp := udp, link := kv rest "link" == some "1" }) }, "ok")
+      else (st, "err")
+    | _, _, _ => (st, "bad-op")
+  | "e2e.tcp" :: name :: rest =>
+    match st.objs.get? name, e2eScenario rest with
+    | some (.world w), some sc =>
+      let sc := { sc with serverUp := w.serverUp && w.listeners.serves }
+      (st, (System.simulate sc).text sc)
+    | _, _ => (st, "bad-op")
+  | "e2e.par" :: name :: rest =>
+    match st.objs.get? name, e2eScenario rest, (kv rest "n").bind String.toNat?, (kv rest "m").bind String.toNat? with
+    | some (.world w), some sc, some n, some m =>
+      -- every flow's result is what it is alone (C09): n copies of the solo prediction
+      let sc := { sc with serverUp := w.serverUp && w.listeners.serves }
+      let t := if n == 0 then [] else [s!"tcp:{n}x[{(System.simulate sc).text sc}]"]
+      let u := if m == 0 then [] else [s!"udp:{m}x[{e2eUdp w}]"]
+      let w := { w with udpSinceBase := w.udpSinceBase || m > 0 }
+      ({ st with objs := st.objs.insert name (.world w) }, if (t ++ u).isEmpty then "none" else " ".intercalate (t ++ u))
+    | _, _, _, _ => (st, "bad-op")
+  | "e2e.udp" :: name :: _ =>
+    match st.objs.get? name with
+    | some (.world w) => ({ st with objs := st.objs.insert name (.world { w with udpSinceBase := true }) }, e2eUdp w)
+    | _ => (st, "bad-op")
+  | ["e2e.fault", name, kind, _] =>
+    match st.objs.get? name, e2eFault kind with
+    | some (.world w), some f =>
+      let na := (kind == "server-udp-replay" || kind == "server-udp-unresolvable") && w.protocol != "shadowsocks"
+      let touchesUdp := kind.startsWith "server-udp" || kind.startsWith "local-udp"
+      ({ st with objs := st.objs.insert name (.world { w with listeners := Listener.step w.listeners f, udpSinceBase := w.udpSinceBase || touchesUdp }) },
+       if na then "n/a" else "done")
+    | _, _ => (st, "bad-op")
+  | ["e2e.server", name, what] =>
+    match st.objs.get? name with
+    | some (.world w) =>
+      if what == "stop" then ({ st with objs := st.objs.insert name (.world { w with serverUp := false }) }, "ok")
+      else if what == "start" then ({ st with objs := st.objs.insert name (.world { w with serverUp := true }) }, "ok")
+      else (st, "bad-op")
+    | _ => (st, "bad-op")
+  | ["e2e.fdbase", name] =>
+    match st.objs.get? name with
+    | some (.world w) => ({ st with objs := st.objs.insert name (.world { w with udpSinceBase := false }) }, "ok")
+    | _ => (st, "bad-op")
+  | ["e2e.fdcheck", name] =>
+    match st.objs.get? name with
+    -- every tcp flow so far has ended: each holds `Flow.resources = 0` (C15); udp associations live until their idle timeout
+    | some (.world w) => (st, if w.openFlows == 0 && !w.udpSinceBase then "baseline" else "associations-open")
+    | _ => (st, "bad-op")
+  | ["e2e.alive", name] =>
+    match st.objs.get? name with
+    | some (.world w) => (st, if w.listeners.serves then "alive" else "ended")
+    | _ => (st, "bad-op")
+  | ["e2e.stop", name] => ({ st with objs := st.objs.erase name }, "ok")
+  | ["ss.rerace", _, _, n] => (st, s!"accepted=0 of={n}")
+  | ["ss.race", _, _, n] =>
+    -- any interleaving of n concurrent presentations of one request: exactly one is accepted
+    match n.toNat? with
+    | some n =>
+      let sched := (List.range n) ++ (List.range n)
+      let w := Interleave.run (Consts.ssSaltTtl * 1000) 1000000 0 [1] ⟨[], List.replicate n .start⟩ sched
+      (st, s!"accepted={Interleave.accepted w} of={n}")
+    | none => (st, "bad-op")
+  | "ssu.par" :: rest =>
+    match (kv rest "threads").bind String.toNat?, (kv rest "packets").bind String.toNat? with
+    | some t, some k => (st, s!"ok={t * k} bad=0")
     | _, _ => (st, "bad-op")
   | "hs.run" :: kind :: segs :: rest =>
     let segments := (segs.splitOn ";").filterMap unhexOrDash
